@@ -42,6 +42,10 @@ def run(R, tier, seed, driver_ok):
             n = len(X)
             extra = rng.randn(6, d) * 2
             full = np.vstack([X, extra])
+            # a third of the points are integer-valued (a records-style callable returns them with an integer dtype)
+            int_rows = rng.choice(len(full), size=max(2, len(full) // 3), replace=False)
+            full[int_rows] = np.round(full[int_rows])
+            X = np.ascontiguousarray(full[:n])
             perm = rng.permutation(len(full))
             pool = full[perm]
             inv = np.argsort(perm)            # full row r sits at pool[inv[r]]
@@ -54,7 +58,7 @@ def run(R, tier, seed, driver_ok):
                 ref = zoo.CLASSES[name](**params).fit(*fa)
             Mref = ref.get_mahalanobis_matrix()
             t = zoo.TUPLE_SIZE.get(name)
-            kinds = ['array', 'list', 'callable'] if tier == 'thorough' or True else ['array']
+            kinds = ['array', 'list', 'callable', 'records']
             for kind in kinds:
                 pre = zoo.make_preprocessor(kind, pool)
                 dt = INT_DTYPES[int(rng.randint(len(INT_DTYPES)))]
@@ -98,6 +102,12 @@ def run(R, tier, seed, driver_ok):
                 nq = 7
                 pidx = rng.randint(0, len(pool), size=(nq, 2))
                 pidx[0] = pidx[1]                           # repeats
+                if kind == 'records':
+                    # first tuple position: integer-valued records only; second position: the others
+                    is_int = np.all(pool == np.round(pool), axis=1)
+                    if is_int.any() and (~is_int).any():
+                        pidx[:, 0] = rng.choice(np.nonzero(is_int)[0], size=nq)
+                        pidx[:, 1] = rng.choice(np.nonzero(~is_int)[0], size=nq)
                 xi = rng.randint(0, len(pool), size=nq)
                 checks = [('transform', (xi,), (pool[xi],)), ('pair_distance', (pidx,), (pool[pidx],)),
                           ('pair_score', (pidx,), (pool[pidx],)), ('score_pairs', (pidx,), (pool[pidx],))]
